@@ -121,10 +121,12 @@ func stopClock() {
 
 // deadlineTicks is the timeout plus one clock period, in ticks. The sum
 // saturates: a timeout within one clock period of the maximum duration must not
-// wrap around to a deadline in the past.
+// wrap around to a deadline in the past. (Only a real overflow saturates: with a
+// negative period - SetTimeoutCheckPeriod does not validate - the sum is smaller
+// than d without having wrapped.)
 func deadlineTicks(d time.Duration) fasttime {
 	sum := d + clockPeriod
-	if sum < d {
+	if clockPeriod > 0 && sum < d {
 		sum = math.MaxInt64
 	}
 	return durationToTicks(sum)
